@@ -275,6 +275,23 @@ def lookup(base):
     w("lib1/shadow.jq", "def s: 1; def s: 2; def t: s;")
     w("lib1/priv.jq", "import \"m\" as inner; def pub: inner::who;")
     w("prog.jq", "include \"m\" {search: \"meta\"}; who")
+    # metadata with ~ inside a module file (not only in the main program), competing with -L
+    w("home/hlib/inner.jq", "def v: \"home\";")
+    w("glob/inner.jq", "def v: \"global\";")
+    w("home/hlib/dat.json", "[1]")
+    w("glob/dat.json", "[2]")
+    w("mods/tilde.jq", "include \"inner\" {search: \"~/hlib\"}; import \"dat\" as $dat {search: [\"nonexistent\", \"~/hlib\"]}; def f: [v, $dat];")
+    # the same directive text in modules of different directories names different files
+    w("pa/conf.json", "\"conf of a\"")
+    w("pb/conf.json", "\"conf of b\"")
+    w("pa/ma.jq", "import \"conf\" as $c {search: \".\"}; def a: $c[0];")
+    w("pb/mb.jq", "import \"conf\" as $c {search: \".\"}; def b: $c[0];")
+    w("pa/h.jq", "def h: \"helper of a\";")
+    w("pb/h.jq", "def h: \"helper of b\";")
+    w("pa/ua.jq", "include \"h\" {search: \".\"}; def ua: h;")
+    w("pb/ub.jq", "include \"h\" {search: \".\"}; def ub: h;")
+    w("pa/conf2.json", "1")
+    w("pb/conf2.json", "2")
     T = [
         (["-L", "lib1", "-L", "lib2", "-n", "include \"m\"; who"], b'"lib1"\n', 0),
         (["-L", "lib2", "-L", "lib1", "-n", "include \"m\"; who"], b'"lib2"\n', 0),
@@ -303,6 +320,16 @@ def lookup(base):
         (["-L", "lib1", "-n", "import \"priv\" as p; p::pub"], b'"lib1"\n', 0),
         (["-L", "lib1", "-n", "import \"priv\" as p; inner::who"], b"", 3),                          # imports of a module are private to it
         (["-L", "lib1", "-nc", "import \"d\" as $d; import \"priv\" as p; [$d, p::pub]"], b'[[1,2],"lib1"]\n', 0),
+    ]
+    T += [
+        (["-L", "glob", "-nc", "include \"tilde\" {search: \"mods\"}; f"], b'["home",[[1]]]\n', 0),
+        (["-L", "nowhere", "-nc", "include \"tilde\" {search: \"mods\"}; f"], b'["home",[[1]]]\n', 0),
+        (["-L", "glob", "-nc", "include \"inner\" {search: \"~/hlib\"}; v"], b'"home"\n', 0),
+        (["-nc", "import \"ma\" as a {search: \"pa\"}; import \"mb\" as b {search: \"pb\"}; [a::a, b::b]"], b'["conf of a","conf of b"]\n', 0),
+        (["-nc", "import \"mb\" as b {search: \"pb\"}; import \"ma\" as a {search: \"pa\"}; [a::a, b::b]"], b'["conf of a","conf of b"]\n', 0),
+        (["-nc", "import \"ua\" as a {search: \"pa\"}; import \"ub\" as b {search: \"pb\"}; [a::ua, b::ub]"], b'["helper of a","helper of b"]\n', 0),
+        (["-nc", "import \"conf2\" as $x {search: \"pa\"}; import \"conf2\" as $y {search: \"pb\"}; [$x, $y]"], b'[[1],[2]]\n', 0),
+        (["-nc", "import \"conf\" as $x {search: \"pa\"}; import \"ma\" as a {search: \"pa\"}; import \"mb\" as b {search: \"pb\"}; [$x[0], a::a, b::b]"], b'["conf of a","conf of a","conf of b"]\n', 0),
     ]
     jobs = [dict(args=a, stdin=b"", cwd=d, env={"HOME": os.path.join(d, "home")}) for a, _, _ in T]
     ok = bad = 0
